@@ -255,6 +255,63 @@ def blade_history_pass(ctx):
                 break
 
 
+def interleaved_algebras_pass(ctx):
+    """several algebras of one dimension but different signature / basis, used alternately in one process (A, then B, then A
+    again), through every route that resolves generated functions by name: with a wrapper, and inside registered functions;
+    after each switch the generators of each algebra still square to its own signature, anticommute, and the blade products
+    follow that algebra's own table.  Also: a blade name given as a key (`{'e21': 1}`, `keys=('e21',)`) is refused or is the
+    blade of that spelling (the keyword form)"""
+    from fractions import Fraction
+    from kingdon import Algebra
+    ident = lambda f: f
+    def asdict(mv):
+        return {int(k): v for k, v in zip(mv.keys(), mv.values()) if v != 0}
+    groups = [
+        [('R(1,1) +-', lambda w: Algebra(signature=[1, -1], **w)), ('R(1,1) -+', lambda w: Algebra(signature=[-1, 1], **w)), ('R(2,0)', lambda w: Algebra(2, **w))],
+        [('PGA3', lambda w: Algebra(3, 0, 1, **w)), ('STA', lambda w: Algebra(3, 1, **w)), ('3DPGA', lambda w: Algebra.fromname('3DPGA', **w))],
+    ]
+    for group in groups:
+        for route in ('wrapper', 'registered'):
+            algs = [(nm, mk({'wrapper': ident} if route == 'wrapper' else {})) for nm, mk in group]
+            regs = {}
+            if route == 'registered':
+                for nm, alg in algs:
+                    def square(x): return x * x
+                    def prod(x, y): return x * y
+                    regs[nm] = (alg.register(square), alg.register(prod))
+            for rnd in range(3):
+                for nm, alg in (algs if rnd != 1 else list(reversed(algs))):
+                    S = alg.signs
+                    gens = [(n, k) for n, k in alg.canon2bin.items() if len(n) == 2]
+                    for (n1, k1), (n2, k2) in [(g, g) for g in gens] + [(gens[0], gens[-1]), (gens[-1], gens[0])]:
+                        a, b = alg.blades[n1], alg.blades[n2]
+                        got = asdict(regs[nm][1](a, b) if route == 'registered' else a * b)
+                        exp = {k1 ^ k2: int(S[k1, k2])} if S[k1, k2] != 0 else {}
+                        case = {'algebra': nm, 'route': route, 'round': rnd, 'other_algebras_used_in_between': [m for m, _ in algs if m != nm], 'product': f'{n1} * {n2}'}
+                        ctx.case(case, tag='interleaved-algebras')
+                        if got != exp:
+                            ctx.violation('generator-square' if n1 == n2 else 'table', case, exp, got, key=f'relations:interleaved-algebras:{route}')
+                            break
+    for tag, alg in (('R3', Algebra(3)), ('3DPGA', Algebra.fromname('3DPGA')), ('R21s2', Algebra(2, 1, start_index=2))):
+        for name in alg.canon2bin:
+            if len(name) < 3:
+                continue
+            for perm in itertools.permutations(name[1:]):
+                sp = 'e' + ''.join(perm)
+                try:
+                    kwform = asdict(alg.multivector(**{sp: Fraction(7)}))
+                except Exception:
+                    continue
+                for fname, thunk in (('keys=(name,)', lambda: alg.multivector(keys=(sp,), values=[Fraction(7)])), ('{name: value}', lambda: alg.multivector({sp: Fraction(7)}))):
+                    ctx.case(('name-as-key', tag, sp, fname), tag='name-as-key')
+                    try:
+                        built = asdict(thunk())
+                    except Exception:
+                        continue
+                    if built != kwform:
+                        ctx.violation('spelling-vs-ordered-product', {'algebra': tag, 'spelling': sp, 'form': fname}, kwform, built, key='spelling:name-as-key')
+
+
 def graded_pass(ctx):
     """graded mode: every basis blade is the unit coefficient on its own key (inside its complete grade), a blade named
     e_ij..k is the ordered product of its generators, blade products follow the table"""
@@ -438,6 +495,7 @@ def run(ctx):
     graded_pass(ctx)
     aliasing_pass(ctx)
     blade_history_pass(ctx)
+    interleaved_algebras_pass(ctx)
     out = ctx.drive(lines)
     if out is not None:
         nbad = 0
